@@ -2,10 +2,10 @@
 Model/ReaderWorld.lean — the environment of `(*reader).run` made concrete: a partition whose stored layout is `items`,
 a broker that obeys the fetch contract (`Spec/Layout.serve`), a network that may lose the connection after any number
 of bytes, a clock that may or may not have passed the deadline — and the **decoder as written**
-(Model/PullReader.lean) reading what arrives.  The outcomes of the `read` calls of Model/ReaderRun.lean's LTS are
+(Model/PullReader.lean) reading what arrives.  The outcomes of the `read` calls of Model/ReaderLoopLTS.lean's LTS are
 computed here instead of being assumed.  Core Lean only.
 -/
-import KafkaVerif.Model.ReaderRun
+import KafkaVerif.Model.ReaderLoopLTS
 import KafkaVerif.Model.PullReader
 import KafkaVerif.Spec.Layout
 
